@@ -30,7 +30,7 @@ def run(ctx):
     # 2. universes -> code -> trace validation
     paths = universes(ctx, QUICK_UNIVERSES if ctx.quick else THOROUGH_UNIVERSES)
     ev = ctx.work / "events.ndjson"
-    ctx.dsv("C02", "drive", "--out", ev, "--universe", ",".join(paths), "--maxgen", 5 if ctx.quick else 6, timeout=3600)
+    ctx.dsv("C02", "drive", "--out", ev, "--universe", ",".join(paths), "--maxgen", 5 if ctx.quick else 6, "--preds-max", 8 if ctx.quick else 9, "--preds-renumberings", 8 if ctx.quick else 20, timeout=3600)
     for ln in open(ev):
         if ln.startswith('{"ev":"sym"') or '"ev":"sym"' in ln[:40]:
             e = json.loads(ln)
